@@ -275,14 +275,15 @@ func runC13(p *core.Prog, r *core.Report, tier string) {
 		// ---- (c) state filters ----
 		nPred := 0
 		for _, f := range fns {
-			if f.Parent() == nil || f.Signature.Params().Len() != 1 || !strings.HasSuffix(f.Signature.Params().At(0).Type().String(), "ValidatorState") {
+			if f.Parent() != nil || !strings.HasPrefix(f.Name(), "ValidatingAccounts") {
 				continue
 			}
-			if !strings.HasPrefix(f.Parent().Name(), "ValidatingAccounts") {
-				continue
+			// the state predicates this entry point hands on: a literal, a named function, or the function held in a
+			// field of a package-level filter value
+			for _, pred := range statePredicatesPassed(f) {
+				nPred++
+				evalPredicate(pred, validatingStates, tag+"|"+core.FnKey(f)+"|validating-filter", p.Pos(f.Pos()))
 			}
-			nPred++
-			evalPredicate(f, validatingStates, tag+"|"+core.FnKey(f.Parent())+"|validating-filter", p.Pos(f.Pos()))
 		}
 		r.Floor("C13.c validating predicates in "+tag, nPred, 2)
 		// sync committee variants pass utils.IsSyncCommitteeEligible
@@ -291,15 +292,11 @@ func runC13(p *core.Prog, r *core.Report, tier string) {
 				continue
 			}
 			okPass := false
-			core.EachInstr(f, func(in ssa.Instruction) {
-				if c, ok := in.(*ssa.Call); ok {
-					for _, a := range c.Call.Args {
-						if fn := funcValueOf(a); fn != nil && fn.Name() == "IsSyncCommitteeEligible" {
-							okPass = true
-						}
-					}
+			for _, fn := range statePredicatesPassed(f) {
+				if fn.Name() == "IsSyncCommitteeEligible" {
+					okPass = true
 				}
-			})
+			}
 			r.Check(okPass, "C13.c", tag+"|"+core.FnKey(f)+"|uses-eligibility-predicate", p.Pos(f.Pos()), "sync committee accounts are filtered by IsSyncCommitteeEligible", "sync committee accounts are not filtered by IsSyncCommitteeEligible")
 		}
 		// ValidatorToState arguments
@@ -361,7 +358,8 @@ func runC13(p *core.Prog, r *core.Report, tier string) {
 						return -1
 					}
 					if call, ok := c.B.Val.(*ssa.Call); ok && !call.Call.IsInvoke() && call.Call.StaticCallee() == nil {
-						if prm, ok := call.Call.Value.(*ssa.Parameter); ok && strings.Contains(strings.ToLower(prm.Name()), "filter") {
+						// the filter handed in: a func(ValidatorState) bool value (a parameter, or a field of a filter parameter)
+						if sg, ok := call.Call.Value.Type().Underlying().(*types.Signature); ok && sg.Params().Len() == 1 && strings.HasSuffix(sg.Params().At(0).Type().String(), "ValidatorState") && sg.Results().Len() == 1 {
 							if c.BoolOnEdge(0) {
 								return 0
 							}
@@ -588,4 +586,58 @@ func checkRequestedOnly(p *core.Prog, r *core.Report, ds *core.Describer, rule, 
 		return 1
 	})
 	r.Check(w == nil, rule, construct+"|requested-only", p.Pos(mu.Pos()), "only requested indices are reported", "the by-index variant can report a validator that was not requested (for instance every account when the list of requested indices is empty)", p.WitnessText(w)...)
+}
+
+// statePredicatesPassed: the func(ValidatorState) bool values a function hands to the calls it makes — directly, or as a
+// field of a package-level struct value that is filled by the package initialiser.
+func statePredicatesPassed(f *ssa.Function) []*ssa.Function {
+	isPred := func(t types.Type) bool {
+		sg, ok := t.Underlying().(*types.Signature)
+		return ok && sg.Params().Len() == 1 && strings.HasSuffix(sg.Params().At(0).Type().String(), "ValidatorState") && sg.Results().Len() == 1
+	}
+	var out []*ssa.Function
+	seen := map[*ssa.Function]bool{}
+	add := func(fn *ssa.Function) {
+		if fn != nil && !seen[fn] && isPred(fn.Signature) {
+			seen[fn] = true
+			out = append(out, fn)
+		}
+	}
+	core.EachInstr(f, func(in ssa.Instruction) {
+		c, ok := in.(*ssa.Call)
+		if !ok {
+			return
+		}
+		for _, a := range c.Call.Args {
+			if isPred(a.Type()) {
+				add(funcValueOf(a))
+				continue
+			}
+			// a struct value loaded from a package-level variable
+			ld, ok := a.(*ssa.UnOp)
+			if !ok {
+				continue
+			}
+			g, ok := ld.X.(*ssa.Global)
+			if !ok || g.Pkg == nil {
+				continue
+			}
+			initFn := g.Pkg.Func("init")
+			if initFn == nil {
+				continue
+			}
+			core.EachInstr(initFn, func(x ssa.Instruction) {
+				st, ok := x.(*ssa.Store)
+				if !ok {
+					return
+				}
+				fa, ok := st.Addr.(*ssa.FieldAddr)
+				if !ok || fa.X != ssa.Value(g) || !isPred(st.Val.Type()) {
+					return
+				}
+				add(funcValueOf(st.Val))
+			})
+		}
+	})
+	return out
 }
